@@ -84,18 +84,18 @@ def concretise(hist, rng):
             if rng.random() < 0.5:
                 carrier = "Green, " + carrier
             ct = t - d
-            rows.append((ct, 0, ("%g" % (ct / 100.0)) if small else (("%s" % ct) if d == 2.5 else fmt % int(ct)), carrier))
+            rows.append((ct, 0, ("%g" % (ct / 100.0)) if small else (("%s" % ct) if d == 2.5 else fmt % int(ct)), carrier, j))
         if mode == "rows" and len(texts) > 1:
             for n, tx in enumerate(texts):
-                rows.append((t, 1 + n, ("%g" % (t / 100.0)) if small else (fmt if n % 2 == 0 else "%d.0") % t, tx))
+                rows.append((t, 1 + n, ("%g" % (t / 100.0)) if small else (fmt if n % 2 == 0 else "%d.0") % t, tx, j))
         elif texts:
             if rng.random() < 0.3:
                 texts.insert(rng.randrange(len(texts) + 1), "Square")
-            rows.append((t, 1, ("%g" % (t / 100.0)) if small else fmt % t, ", ".join(texts)))
+            rows.append((t, 1, ("%g" % (t / 100.0)) if small else fmt % t, ", ".join(texts), j))
         if rng.random() < 0.2:
-            rows.append((t + 1, 0, ("%g" % ((t + 1) / 100.0)) if small else fmt % (t + 1), "Circle"))
+            rows.append((t + 1, 0, ("%g" % ((t + 1) / 100.0)) if small else fmt % (t + 1), "Circle", None))
     rows.sort(key=lambda r: (r[0], r[1]))
-    return [(r[2], r[3]) for r in rows], tps, spell
+    return [(r[2], r[3]) for r in rows], tps, spell, [r[4] for r in rows]
 
 
 def _fold(sp):
@@ -143,22 +143,27 @@ def execute(case):
         shared_diff = "a validator object that validated other files before raised %s: %s" % (type(ex).__name__, ex)
     # file row (header = 1) in which each marker is written
     rowof = {}
-    for i, sp in spell.items():
-        for k, r in enumerate(rows):
-            if re.search(r"Def/" + re.escape(sp) + r"(?![\w/])", r[1]):
-                rowof[i] = k + 2
+    for sp in set(spell.values()):
+        same = sorted(i for i, x in spell.items() if x == sp)        # markers written with this spelling, in history order
+        occ = [k + 2 for k, r in enumerate(rows) for _ in re.findall(r"Def/" + re.escape(sp) + r"(?![\w/])", r[1])]
+        if len(same) == 1:
+            if occ:
+                rowof[same[0]] = occ[-1]
+        # several markers share the spelling: their rows are found through the time points below (onset / carrier), not here
     # rows that belong to a marker's time point: rows with that onset and the carrier rows of its Delay-shifted markers
     # (issues of a merged time point are labelled with ONE of its rows)
     tprows = {}
     for j, idxs in enumerate(tps):
-        rs = {rowof[i] for i in idxs if i in rowof} | {k + 2 for k, r in enumerate(rows) if min(abs(float(r[0]) - (j + 1) * 10), abs(float(r[0]) * 100 - (j + 1) * 10)) < 1e-6}
+        rs = {rowof[i] for i in idxs if i in rowof} | {k + 2 for k, tp in enumerate(case.get("rowtp") or []) if tp == j} | {k + 2 for k, r in enumerate(rows) if min(abs(float(r[0]) - (j + 1) * 10), abs(float(r[0]) * 100 - (j + 1) * 10)) < 1e-6}
         for i in idxs:
             tprows[i] = rs
     wrongrow = []
     verdict = {i: "ok" for i in range(len(hist))}
     unattributed = []
     other = []
-    by_sp = {sp.casefold() if False else sp: i for i, sp in spell.items()}
+    by_sp = {}            # (a 3-letter name has 8 letter-case spellings: histories of 9+ markers re-use one, told apart by the row)
+    for i, sp in sorted(spell.items()):
+        by_sp.setdefault(sp, []).append(i)
     for iss in issues:
         if iss.get("code") != "TEMPORAL_TAG_ERROR":
             if iss.get("severity", 1) == 1 and iss.get("code") not in ("TAG_EXPRESSION_REPEATED",):
@@ -175,9 +180,12 @@ def execute(case):
             m = re.search(r"name '([A-Za-z]+(?:/\d+)?)'", iss.get("message", ""))
             name = m.group(1) if m else None
         if name in by_sp:
-            verdict[by_sp[name]] = "error"
-            if iss.get("ec_row") is not None and tprows.get(by_sp[name]) and iss.get("ec_row") not in tprows[by_sp[name]]:
-                wrongrow.append((name, iss.get("ec_row"), sorted(tprows[by_sp[name]])))
+            cands = by_sp[name]
+            here = [i for i in cands if iss.get("ec_row") is None or not tprows.get(i) or iss.get("ec_row") in tprows[i]]
+            pick = ([i for i in here if verdict[i] == "ok"] or here or cands)[0]
+            verdict[pick] = "error"
+            if not here:
+                wrongrow.append((name, iss.get("ec_row"), sorted(tprows[pick])))
         else:
             unattributed.append(iss.get("message", "")[:120])
     opens = []
@@ -255,8 +263,8 @@ def run(ctx):
         # observable probe of the final open-scope set: one more time point with an Inset for every name
         hist = j["hist"] + [{"k": "Inset", "key": k, "tp": i == 0} for i, k in enumerate(["a", "b/1", "b/2"])]
         errs = j["errs"] + ["ok" if k in j["open"] else "unmatched" for k in ["a", "b/1", "b/2"]]
-        rows, tps, spell = concretise(hist, rng)
-        cases.append({"n": n, "hist": hist, "spec_errs": errs, "rows": rows, "tps": tps, "spell": spell})
+        rows, tps, spell, rowtp = concretise(hist, rng)
+        cases.append({"n": n, "hist": hist, "spec_errs": errs, "rows": rows, "tps": tps, "spell": spell, "rowtp": rowtp})
     done = _run_cases(cases)
     ok_cases = []
     for c in done:
@@ -267,13 +275,13 @@ def run(ctx):
             ctx.violation("raises", "file validation raised %s for rows %s" % (c["raised"], c["rows"]),
                           {"rows": c["rows"], "hist": c["hist"]})
             continue
+        full = {k: c[k] for k in ("rows", "hist", "tps", "spell", "spec_errs", "rowtp")}
         if c.get("wrongrow"):
             nm, got_r, want_r = c["wrongrow"][0]
             ctx.violation("marker-reported-at-another-row", "the issue about marker Def/%s names file row %s; the marker's time point is made of the rows %s "
-                          "(the reported marker does not exist there); rows=%s" % (nm, got_r, want_r, c["rows"]),
-                          {"rows": c["rows"], "hist": c["hist"]})
+                          "(the reported marker does not exist there); rows=%s" % (nm, got_r, want_r, c["rows"]), full)
         if c.get("shared_diff"):
-            ctx.violation("depends-on-earlier-files", "%s; rows=%s" % (c["shared_diff"], c["rows"]), {"rows": c["rows"], "hist": c["hist"]})
+            ctx.violation("depends-on-earlier-files", "%s; rows=%s" % (c["shared_diff"], c["rows"]), full)
         if c["unattributed"]:
             ctx.bump("unattributed_temporal_issues")
         if c["other"]:
@@ -313,8 +321,7 @@ def run(ctx):
             key = "open-set"
             text = ("after time point %d (markers %s) the validator's open scopes are %s, not those the history implies; rows=%s"
                     % (t, marks, c["open"][t - 1], c["rows"]))
-        ctx.violation(key, text, {"rows": c["rows"], "hist": c["hist"], "tps": c["tps"], "spell": c["spell"],
-                                  "spec_errs": c["spec_errs"]})
+        ctx.violation(key, text, {k: c[k] for k in ("rows", "hist", "tps", "spell", "spec_errs", "rowtp")})
     for c in ok_cases[5:8] + ok_cases[-2:]:
         ctx.sample({"history": [(m["k"], m["key"], m["tp"]) for m in c["hist"]], "rows": c["rows"], "observed": c["obs"],
                     "open_after_each_time_point": c["open"]})
@@ -330,7 +337,11 @@ def run(ctx):
 def replay(obj):
     _init(None)
     c = execute({"hist": obj["hist"], "rows": [tuple(r) for r in obj["rows"]], "tps": obj["tps"],
-                 "spell": {int(k): v for k, v in obj["spell"].items()}})
+                 "spell": {int(k): v for k, v in obj["spell"].items()}, "rowtp": obj.get("rowtp")})
+    if "raised" in c:
+        return False, c["raised"]
+    if c.get("wrongrow") or c.get("shared_diff"):
+        return False, "%s %s" % (c.get("wrongrow"), c.get("shared_diff"))
     if "raised" in c:
         return False, c["raised"]
     spec = [["ok" if obj["spec_errs"][k] == "ok" else "error" for k in idxs] for idxs in obj["tps"]]
